@@ -11,14 +11,14 @@ CONSTANTS
   Prog <- MC_Prog
   KeyRank <- MC_KeyRank
   Root <- MC_Root
-  CandU <- MC_CandU_life
+  CandU <- MC_CandU_chain
   AbortSets <- MC_AbortSets_one
-  MaxTicks = 3
+  MaxTicks = 4
   MaxCands = 2
   MaxCandsA = 1
   MaxAborts = 1
   MaxJumps = 0
-  PreNames = {"hub"}
+  PreNames = {"chain"}
   Export = TRUE
   None = None
 INVARIANTS Inv_PatchStep Inv_Linear Inv_Jump Inv_Chain Inv_WellFormed Inv_TxBook Inv_ScriptFold Inv_AbortInvisible Inv_SliceDefs Inv_SliceWeak Inv_Unproduced Inv_Export
